@@ -17,12 +17,12 @@ theorem replaces_modify {s : State} (hi : Inv s) {a : Addr} {v : Val} (hv : aget
     (hsi : s'.stakedIdx = (setValidator (delStaked s v) v').stakedIdx)
     (hci : s'.chainIdx = s.chainIdx)
     (hq : s'.unstQ = (setValidator (delStaked s v) v').unstQ)
-    (hp : s'.pool = pool') :
+    (hp : s'.pool = pool') (hw : s'.waiting = s.waiting) :
     Replaces s s' a (some v') := by
   have hk := hi.keys a v hv
   have ha' : v'.addr = a := by rw [haddr, hk]
   have hgq : ∀ t, getQ s' t = getQ (setValidator (delStaked s v) v') t := fun t => by unfold getQ; rw [hq]
-  refine ⟨?_, ?_, ?_, ?_, ?_, ?_⟩
+  refine ⟨?_, ?_, ?_, ?_, ?_, ?_, hw, by rw [hq]; exact nodup_setValidator_unstQ _ _ hi.qNodup⟩
   · rw [hvals, setValidator_vals, ha']; rfl
   · intro x
     rw [hsi, mem_setValidator_staked, delStaked_stakedIdx, mem_sdel, hi.staked_at hv]
@@ -82,7 +82,7 @@ theorem inv_jailValidator {s : State} (hi : Inv s) (a : Addr) : Inv (jailValidat
           replaces_modify hi hv { v with jailed := true } rfl rfl rfl rfl s.pool
             (by simp [contrib, bonded]) _ rfl rfl
             (by rw [emit_chainIdx, setValidator_chainIdx]; rfl) rfl
-            (by rw [emit_pool, setValidator_pool]; rfl)
+            (by rw [emit_pool, setValidator_pool]; rfl) (by simp)
         refine hi.replace ⟨?_⟩ hr
         intro w hw
         injection hw with hw; subst hw
@@ -156,7 +156,7 @@ theorem Inv.tokens_le_pool {s : State} (hi : Inv s) {a : Addr} {v : Val} (hv : a
 /-- `ForceValidatorUnstake` -/
 theorem inv_forceUnstake {s : State} (hi : Inv s) (v : Val) (c : Cause) : Inv (forceUnstake s v c) := by
   unfold forceUnstake
-  exact (inv_jailValidator hi v.addr).congr rfl rfl rfl rfl rfl
+  exact (inv_jailValidator hi v.addr).congr rfl rfl rfl rfl rfl (nodup_sins (inv_jailValidator hi v.addr).waitNodup _)
 
 /-- the record after a slash of `k` tokens -/
 def slashedVal (v : Val) (k : Int) : Val := { v with tokens := v.tokens - k }
@@ -211,6 +211,7 @@ theorem inv_afterBurn {s : State} (hi : Inv s) {v : Val} (hv : aget s.vals v.add
       split
       · rename_i hz; simp; omega
       · simp
+    · unfold afterBurn; simp only; split <;> simp
   refine hi.replace ⟨?_⟩ hr
   intro w hw
   injection hw with hw; subst hw
@@ -257,16 +258,16 @@ theorem inv_slash {s : State} (hi : Inv s) (h : Int) (a : Addr) (ih pw f : Int) 
 /-! ## BeginBlocker -/
 
 theorem inv_clearMissed {s : State} (hi : Inv s) (a : Addr) : Inv (clearMissed s a) :=
-  hi.congr rfl rfl rfl rfl rfl
+  hi.congr rfl rfl rfl rfl rfl hi.waitNodup
 
 theorem inv_setMissed {s : State} (hi : Inv s) (a : Addr) (i : Int) (b : Bool) : Inv (setMissed s a i b) :=
-  hi.congr rfl rfl rfl rfl rfl
+  hi.congr rfl rfl rfl rfl rfl hi.waitNodup
 
 theorem inv_resetSigningInfo {s : State} (hi : Inv s) (a : Addr) (h : Int) : Inv (resetSigningInfo s a h) :=
-  hi.congr rfl rfl rfl rfl rfl
+  hi.congr rfl rfl rfl rfl rfl hi.waitNodup
 
 theorem inv_setSignInfo {s : State} (hi : Inv s) (l : List (Addr × SignInfo)) : Inv { s with signInfo := l } :=
-  hi.congr rfl rfl rfl rfl rfl
+  hi.congr rfl rfl rfl rfl rfl hi.waitNodup
 
 theorem inv_sigWindowReset {s : State} (hi : Inv s) (h : Int) (a : Addr) (si0 : SignInfo) :
     Inv (sigWindowReset s h a si0).1 := by
@@ -337,5 +338,199 @@ theorem inv_beginBlock {s : State} (hi : Inv s) (h t : Int) (votes : List Vote) 
   unfold beginBlock
   exact inv_foldl _ (fun s e hs => inv_handleEvidence hs h t e) evs
     (inv_foldl _ (fun s v hs => inv_handleSig hs h t v) votes hi)
+
+/-! ## EndBlocker -/
+
+theorem inv_incrementJailedOne {s : State} (hi : Inv s) (h : Int) (v : Val) : Inv (incrementJailedOne s h v) := by
+  unfold incrementJailedOne
+  split
+  · simp only
+    split
+    · exact inv_forceUnstake hi _ _
+    · exact inv_setSignInfo hi _
+  · exact hi
+
+theorem inv_incrementJailed {s : State} (hi : Inv s) (h : Int) : Inv (incrementJailed s h) := by
+  unfold incrementJailed
+  exact inv_foldl _ (fun s p hs => inv_incrementJailedOne hs h p.2) _ hi
+
+/-- `BeginUnstakingValidator` on the current record of a staked node -/
+theorem replaces_beginUnstaking {s : State} (hi : Inv s) {v : Val} (hv : aget s.vals v.addr = some v)
+    (hs : v.status = .staked) (t : Int) :
+    Replaces s (beginUnstaking s t v) v.addr
+      (some { v with status := .unstaking,
+                     unstTime := if v.unstTime = zeroTime then t + s.params.unstakingTime else v.unstTime }) := by
+  unfold beginUnstaking
+  simp only [delChains_params, delStaked_params]
+  generalize (if v.unstTime = zeroTime then t + s.params.unstakingTime else v.unstTime) = τ
+  refine ⟨?_, ?_, ?_, ?_, ?_, ?_, ?_, ?_⟩
+  · simp [setValidator_vals]
+  · intro x
+    rw [emit_stakedIdx, mem_setValidator_staked, delChains_stakedIdx, delStaked_stakedIdx, mem_sdel, hi.staked_at hv]
+    constructor
+    · rintro (h | ⟨h1, _⟩)
+      · exact Or.inl h
+      · cases h1
+    · rintro (h | ⟨w, hw, h1, _⟩)
+      · exact Or.inl h
+      · injection hw with hw; subst hw; cases h1
+  · rw [emit_stakedIdx]
+    exact nodup_setValidator_staked _ _ (nodup_sdel hi.idxNodup _)
+  · intro x
+    rw [emit_chainIdx, setValidator_chainIdx, mem_delChains, delStaked_chainIdx, hi.chain_at hv]
+    constructor
+    · intro h; exact Or.inl h
+    · rintro (h | ⟨w, hw, h1, _⟩)
+      · exact h
+      · injection hw with hw; subst hw; cases h1
+  · intro t' b
+    rw [getQ_emit, mem_getQ_setValidator, getQ_delChains, getQ_delStaked]
+    constructor
+    · rintro (h | ⟨_, h2, h3⟩)
+      · exact Or.inl ⟨h, hi.queue_notUnstaking hv (by rw [hs]; simp) t' b h⟩
+      · exact Or.inr ⟨_, rfl, rfl, h3, h2.symm⟩
+    · rintro (⟨h, _⟩ | ⟨w, hw, _, h2, h3⟩)
+      · exact Or.inl h
+      · injection hw with hw; subst hw
+        exact Or.inr ⟨rfl, h3.symm, h2⟩
+  · rw [emit_pool, setValidator_pool, delChains_pool, delStaked_pool, hv]
+    simp [contribOpt, contrib, bonded, hs]
+  · simp
+  · rw [emit_unstQ]; exact nodup_setValidator_unstQ _ _ hi.qNodup
+
+theorem inv_beginUnstaking {s : State} (hi : Inv s) {v : Val} (hv : aget s.vals v.addr = some v)
+    (hs : v.status = .staked) (t : Int) : Inv (beginUnstaking s t v) := by
+  refine hi.replace ⟨?_⟩ (replaces_beginUnstaking hi hv hs t)
+  intro w hw
+  injection hw with hw; subst hw
+  exact ⟨rfl, hi.nonneg _ v hv, by simp⟩
+
+theorem inv_delWaiting {s : State} (hi : Inv s) (a : Addr) : Inv (delWaiting s a) :=
+  hi.congr rfl rfl rfl rfl rfl (nodup_sdel hi.waitNodup _)
+
+theorem inv_setWaiting {s : State} (hi : Inv s) (a : Addr) (c : Cause) : Inv (setWaiting s a c) :=
+  hi.congr rfl rfl rfl rfl rfl (nodup_sins hi.waitNodup _)
+
+/-- the loop body of `ReleaseWaitingValidators`, on a record that is still the current one -/
+theorem inv_releaseOne {s : State} (hi : Inv s) {v : Val} (hv : aget s.vals v.addr = some v) (t : Int) :
+    Inv (releaseOne s t v) := by
+  unfold releaseOne
+  simp only
+  split
+  · rename_i hs; exact inv_delWaiting (inv_beginUnstaking hi hv hs t) _
+  · exact inv_delWaiting hi _
+
+/-- `releaseOne` touches the record of its own address only -/
+theorem releaseOne_vals_ne (s : State) (t : Int) (v : Val) {b : Addr} (hb : b ≠ v.addr) :
+    aget (releaseOne s t v).vals b = aget s.vals b := by
+  unfold releaseOne
+  simp only
+  split
+  · unfold beginUnstaking
+    simp [setValidator_vals, aget_aset_ne _ _ _ hb]
+  · rfl
+
+theorem inv_releaseFold {s : State} (hi : Inv s) (t : Int) (vs : List Val)
+    (hcur : ∀ v ∈ vs, aget s.vals v.addr = some v) (hnd : (vs.map (·.addr)).Nodup) :
+    Inv (vs.foldl (fun s v => releaseOne s t v) s) := by
+  induction vs generalizing s with
+  | nil => exact hi
+  | cons v rest ih =>
+    simp only [List.foldl_cons]
+    simp only [List.map_cons, List.nodup_cons] at hnd
+    apply ih (inv_releaseOne hi (hcur v List.mem_cons_self) t)
+    · intro w hw
+      have hne : w.addr ≠ v.addr := by
+        intro e
+        exact hnd.1 (List.mem_map.mpr ⟨w, hw, e⟩)
+      rw [releaseOne_vals_ne s t v hne]
+      exact hcur w (List.mem_cons_of_mem _ hw)
+    · exact hnd.2
+
+/-- what `GetWaitingValidators` returns: current records of distinct addresses taken from the list -/
+theorem getWaiting_spec (s : State) (l : List Addr) (acc : List Val)
+    (hacc : ∀ v ∈ acc, aget s.vals v.addr = some v) (hk : ∀ a v, aget s.vals a = some v → v.addr = a) :
+    (∀ v ∈ (getWaiting s l acc).1, aget s.vals v.addr = some v) ∧
+    (∃ l', l'.Sublist l ∧ (getWaiting s l acc).1.map (·.addr) = acc.map (·.addr) ++ l') ∧
+    ((getWaiting s l acc).2 = s ∨ ∃ a, (getWaiting s l acc).2 = delWaiting s a) := by
+  induction l generalizing acc with
+  | nil => exact ⟨hacc, ⟨[], List.Sublist.refl _, by simp [getWaiting]⟩, Or.inl rfl⟩
+  | cons a rest ih =>
+    unfold getWaiting
+    cases hv : aget s.vals a with
+    | none =>
+      exact ⟨hacc, ⟨[], List.nil_sublist _, by simp⟩, Or.inr ⟨a, rfl⟩⟩
+    | some v =>
+      simp only
+      have hacc' : ∀ w ∈ acc ++ [v], aget s.vals w.addr = some w := by
+        intro w hw
+        rcases List.mem_append.mp hw with h | h
+        · exact hacc w h
+        · simp at h; subst h; rw [hk a w hv]; exact hv
+      obtain ⟨h1, ⟨l', hl, he⟩, h3⟩ := ih (acc ++ [v]) hacc'
+      refine ⟨h1, ⟨a :: l', hl.cons₂ a, ?_⟩, h3⟩
+      rw [he]; simp [hk a v hv]
+
+/-! ### address sorting keeps the elements -/
+
+theorem mem_insertAddr (a : Addr) (l : List Addr) (x : Addr) : x ∈ insertAddr a l ↔ x = a ∨ x ∈ l := by
+  induction l with
+  | nil => simp [insertAddr]
+  | cons b t ih =>
+    unfold insertAddr
+    split
+    · simp
+    · simp [ih]; constructor
+      · rintro (h | h | h)
+        · exact Or.inr (Or.inl h)
+        · exact Or.inl h
+        · exact Or.inr (Or.inr h)
+      · rintro (h | h | h)
+        · exact Or.inr (Or.inl h)
+        · exact Or.inl h
+        · exact Or.inr (Or.inr h)
+
+theorem nodup_insertAddr (a : Addr) (l : List Addr) (hl : l.Nodup) (ha : a ∉ l) : (insertAddr a l).Nodup := by
+  induction l with
+  | nil => simp [insertAddr]
+  | cons b t ih =>
+    unfold insertAddr
+    simp only [List.nodup_cons] at hl
+    split
+    · exact List.nodup_cons.mpr ⟨ha, List.nodup_cons.mpr hl⟩
+    · refine List.nodup_cons.mpr ⟨?_, ih hl.2 (fun h => ha (List.mem_cons_of_mem _ h))⟩
+      rw [mem_insertAddr]
+      rintro (h | h)
+      · exact ha (h ▸ List.mem_cons_self)
+      · exact hl.1 h
+
+theorem mem_sortAddrs (l : List Addr) (x : Addr) : x ∈ sortAddrs l ↔ x ∈ l := by
+  induction l with
+  | nil => simp [sortAddrs]
+  | cons a t ih =>
+    show x ∈ insertAddr a (sortAddrs t) ↔ _
+    rw [mem_insertAddr, ih]; simp
+
+theorem nodup_sortAddrs (l : List Addr) (hl : l.Nodup) : (sortAddrs l).Nodup := by
+  induction l with
+  | nil => simp [sortAddrs]
+  | cons a t ih =>
+    simp only [List.nodup_cons] at hl
+    show (insertAddr a (sortAddrs t)).Nodup
+    exact nodup_insertAddr a _ (ih hl.2) (by rw [mem_sortAddrs]; exact hl.1)
+
+/-- `ReleaseWaitingValidators` -/
+theorem inv_releaseWaiting {s : State} (hi : Inv s) (t : Int) : Inv (releaseWaiting s t) := by
+  unfold releaseWaiting
+  obtain ⟨h1, ⟨l', hl, he⟩, h3⟩ := getWaiting_spec s (sortAddrs s.waiting) [] (by simp) hi.keys
+  generalize getWaiting s (sortAddrs s.waiting) [] = r at h1 he h3
+  obtain ⟨vs, s1⟩ := r
+  simp only at h1 he h3 ⊢
+  have hnd : (vs.map (·.addr)).Nodup := by
+    rw [he]; simp
+    exact (nodup_sortAddrs _ hi.waitNodup).sublist hl
+  rcases h3 with e | ⟨a, e⟩
+  · subst e; exact inv_releaseFold hi t vs h1 hnd
+  · subst e; exact inv_releaseFold (inv_delWaiting hi a) t vs h1 hnd
 
 end Nodes
